@@ -1,6 +1,12 @@
 HOOK_COMMITS = ["a7ddfc0"]
 
 META = {
+    "C03": dict(
+        text="Model-based property testing of the breaker state machine on an injected virtual clock: generated histories of record/acquire/manual/execution operations and boundary-biased clock advances are applied in lock-step to the real breaker and to a naive reference breaker (plain result lists recounted per query); state, admission decisions, remaining delay, metrics, and the generic and specific state-change events with their metrics are compared after every operation. The time window is checked against the envelope the property states (results aged <= 0.9 period always count, > period never). Sampling, not proof.",
+        design_ref="DESIGN.md section 6, C03",
+        note="Trusts the reference model (harness/cbmodel) and the clock hook; admission counts and metrics are unchecked in epochs tainted by results recorded without a permit (L3); grey-zone window decisions adopt the observed state (L4, counted in evidence).",
+        technique="property-based testing (rapid): stateful model-based lock-step against a reference state machine on virtual time; native fuzzing in thorough",
+    ),
     "C05": dict(
         text="Model-based and metamorphic property testing of the rate limiter on an injected virtual stopwatch: every response of generated request histories is compared with a greedy slot/period allocator written from the property text, model-free invariants are checked over all grants of each history, refused requests are deleted and k-permit requests split to check the two equivalences, concurrent callers are checked for linearizability against the model, and blocking acquires are checked never to succeed early. Sampling, not proof: evidence reports case counts.",
         design_ref="DESIGN.md section 6, C05",
